@@ -1317,7 +1317,22 @@ pub fn update_cli(ctx: &Ctx, rng: &mut Rng, o: &mut Out) {
         "applied": applied_line(&out1), "announced": total}));
     }
   }
-  let mut projects = vec![witness, touching, touching_one_doc];
+  // many files with two documents each, several walker threads: the payloads of different files
+  // interleave on the channel to the single writer (C17: any schedule), every file must still end
+  // up with the edits of BOTH of its documents
+  let crowd = Project {
+    files: (0..320)
+      .map(|i| (format!("d{}/p{i}.html", i % 8), format!("<div foo=\"{i}\"></div>\n<script>let x = {i};</script>\n")))
+      .collect(),
+    config: vec![
+      ("sgconfig.yml".into(), "ruleDirs: [rules]\n".into()),
+      ("rules/f-attr.yml".into(), format!("id: f-attr\n{}", SCAN_RULES[5].1)),
+      ("rules/a-num.yml".into(), format!("id: a-num\n{}", SCAN_RULES[0].1)),
+    ],
+    cmd: vec!["scan".into(), "-j".into(), "8".into()],
+    class: "scan witness many two-document files, 8 threads".into(),
+  };
+  let mut projects = vec![witness, touching, touching_one_doc, crowd];
   for k in 0..n {
     projects.push(gen_project(rng, k));
   }
